@@ -348,8 +348,8 @@ def run(ctx):
                         "the signed transactions are produced by pycoin's signer (C05) with its sighash code (C04)",
                         "TLC/SANY, CPython, OpenSSL via pycoin's native binding"]
     if want("model"):
-        ctx.tlc("MC_TxValidate", "MC_TxValidate_q" if q else "MC_TxValidate_t", coverage=not q, timeout=3000,
-                require_actions=() if q else ("Apply", "Validate"))
+        for cfg in (["MC_TxValidate_q"] if q else ["MC_TxValidate_q", "MC_TxValidate_m", "MC_TxValidate_t"]):
+            ctx.tlc("MC_TxValidate", cfg, coverage=not q, timeout=3000, require_actions=() if q else ("MNext",))
         r = ctx.tlc("MC_TxValidate", "MC_TxValidate_cached", expect_ok=False, count=False, timeout=900)
         ctx.selftest("model_rejects_cache_keyed_by_hash_type", (not r.ok) and r.violated == "ReportedIsCurrent")
 
